@@ -21,7 +21,12 @@ CFG = dict(
                 "iterator (dereference every row; increment k times without dereferencing then dereference; dereference, skip, "
                 "dereference; std::advance; every 2nd/3rd row and each row twice -- every row obtained must equal that row of read_image), read_view into a view inside a "
                 "seeded arena (outside must stay untouched), any_image, FILE* / file name / std::istream devices, "
-                "read_image_info dimensions, too-small destination views (must throw, arena untouched). Observation of "
+                "read_image_info dimensions, too-small destination views (must throw, arena untouched). Delivery independence: "
+                "ten entry points (read_image, sub-rectangle, read_view, read_and_convert_image/view, read_image_info, any_image, "
+                "scanline reader over an istream device with and without skipped rows) through eight kinds of input stream "
+                "(get area refilled 1/2/7/64/4096/seeded bytes at a time, std::ifstream on a scratch file, std::stringstream "
+                "filled by write; files from 60 bytes to 760 KB) must give what the same entry point gives through a one-piece "
+                "std::istringstream. Observation of "
                 "bounded executions: other files, rectangles and destination types are not covered."),
     level_note=("the reference is GIL's own full read (agreement, not decode correctness, is the property); trusts the harness's "
                 "pixel comparison (self-tested at start-up) and g++ 12/ASan; system libpng/libjpeg/libtiff"),
@@ -47,6 +52,6 @@ CFG = dict(
         + [tu("c13_probe%d" % k, "harness/c13_probe.cpp", "asan", extra=["-DC13_PROBE=%d" % k], probe=name) for k, name in PROBES],
     runs=[run("c13_p%d" % k, shards=sh, min_cases={"quick": fl, "thorough": fl}, max_restarts=400) for k, _, sh, fl in PARTS],
     require_obs=["path.subrect", "path.convert", "path.scanline", "path.readview", "path.anyimage", "path.devices", "path.info",
-                 "path.toosmall", "toosmall.rejected", "scanline.skip-then-deref", "scanline.deref-skip-deref", "scanline.advance", "scanline.alternate", "device.FILEptr", "device.filename", "rect.xoff-shortw-yoff-shorth",
+                 "path.toosmall", "toosmall.rejected", "stream.frag1", "stream.frag2", "stream.frag7", "stream.frag64", "stream.frag4096", "stream.frag-seeded", "stream.ifstream", "stream.stringstream-written", "stream.file-over-8KB", "stream.file-over-16KB", "stream.file-over-64KB", "stream.entry-ok.read_image", "stream.entry-ok.read_view", "stream.entry-ok.read_and_convert_image-rgb8", "stream.entry-ok.read_and_convert_view-rgb8", "stream.entry-ok.read_image_info", "stream.entry-ok.any_image", "stream.entry-ok.scanline", "stream.entry-ok.scanline-skip", "scanline.skip-then-deref", "scanline.deref-skip-deref", "scanline.advance", "scanline.alternate", "device.FILEptr", "device.filename", "rect.xoff-shortw-yoff-shorth",
                  "rect.x0-fullw-y0-fullh", "variant.rle8", "variant.interlaced-rgb8", "variant.P1-ascii-mono", "variant.rle32-ul-origin"],
 )
